@@ -192,6 +192,35 @@ def classify_e2e(a, o):
     return "faithful" if r == R.EXPECTED else "not-faithful"
 
 
+# ------------------------------------------------------------------ dict.valok: the hypothesis of dict_rt on real universes
+def gen_valok(rng, tier):
+    for u, desc, ctx, obj in instances(rng, tier, n_cases(tier, 80, 1500), 5):
+        yield {"ctx": ctx, "value": u.to_val(obj), "clazz": "Root", "factory": rng.choice(["dict", "filter_none"]),
+               "desc": desc, "_uni": u.modname}
+
+
+def impl_valok(a):
+    """what the real code does with the instance: both routes give the object back, or not"""
+    msg = oracle_check({"value": a["value"], "target": {"cls": a["clazz"]}, "factory": a["factory"], "desc": a["desc"], "_uni": a.get("_uni")})
+    return {"ok": {"identity": msg is None, "why": msg}}
+
+
+def cmp_valok(mo, io, a):
+    """`valOKj` (resp. `valOKu` in a universe without subclass pools) promises the round trip"""
+    if "ok" not in mo or "ok" not in io:
+        return False
+    m = mo["ok"]
+    if m["typed"] and m["no_subclass_pools"] and not m["in_fragment"]:
+        return False                     # dict_rt_universe: valOKu + noSubclassPools -> valOKj
+    if m["in_fragment"]:
+        return io["ok"]["identity"]
+    return True
+
+
+def classify_valok(a, o):
+    return "identity" if o.get("ok", {}).get("identity") else "not-identity"
+
+
 # ------------------------------------------------------------------ dict.encflags: encode(value, var, wrapped) literally
 _FLAG_VARS = {}
 
@@ -294,6 +323,9 @@ CORRS = [
                   "explicit / list / detected target"),
     Corr("dict.roundtrip", gen_rt, impl_rt, compare=cmp_member, classify=classify_rt,
          describe="real encode+decode (dict and JSON text routes) vs model encode+decode"),
+    Corr("dict.valok", gen_valok, impl_valok, compare=cmp_valok, classify=classify_valok,
+         describe="the decidable hypothesis of dict_rt (valOKj, valOKu, noSubclassPools) evaluated by the driver on generated universes and "
+                  "instances; whenever it holds the real DictEncoder/DictDecoder and JsonSerializer/JsonParser must give the object back"),
     Corr("dict.encflags", gen_encflags, impl_encflags, compare=cmp_skip,
          describe="DictEncoder.encode(value, var, wrapped) on one real XmlVar (with / without wrapper, both flag values) over nested lists, "
                   "Enum members (plain, IntEnum / str mixed-in, over primitives and tuples), primitives, None and model instances vs encFlagsF"),
